@@ -120,10 +120,8 @@ theorem wfA_empty : wfA Arguments.empty := by simp [Arguments.empty, wfA, wfL, w
 theorem wfE_lambda {as : Arguments} {b : Expr} (ha : wfA as) (hb : wfE b) : wfE (.lambda as b) := by
   simp only [wfE]; exact ⟨ha, hb⟩
 
-theorem wfE_augAssignExpr {t v f : Expr} (op : BinOpK) (ht : wfE t) (hv : wfE v) (hf : wfE f) :
-    wfE (augAssignExpr t op v f) :=
-  wfE_ifExp (wfE_call (wfE_name _) (wfL_cons ht (wfL_cons (wfE_str _) wfL_nil)))
-    (wfE_call (wfE_attribute _ ht) (wfL_cons hv wfL_nil)) hf
+theorem wfE_augAssignExpr {t v : Expr} (op : BinOpK) (ht : wfE t) (hv : wfE v) : wfE (augAssignExpr t op v) :=
+  wfE_call (wfE_attribute _ (wfE_call (wfE_name _) (wfL_cons (wfE_str _) wfL_nil))) (wfL_cons ht (wfL_cons hv wfL_nil))
 
 theorem wfE_compare1 {a b : Expr} (op : CmpOpK) (ha : wfE a) (hb : wfE b) : wfE (.compare a [op] [b]) := by
   simp only [wfE, wfL]
@@ -310,7 +308,7 @@ theorem lowerAugAssign_wf (n : Nsp) (tg : Expr) (op : BinOpK) (v : Expr) (st : S
     obtain ⟨r, hr, h⟩ := bind_ok h
     cases pure_ok h
     have hwt := getLoad_wf ht'
-    exact wfL_cons (getAssign_wf hr (wfE_augAssignExpr op hwt hwv (wfE_binOp op hwt hwv))) wfL_nil
+    exact wfL_cons (getAssign_wf hr (wfE_augAssignExpr op hwt hwv)) wfL_nil
   | subscript tv ts =>
     simp only [] at h
     obtain ⟨parent, hp, h⟩ := bind_ok h
@@ -318,7 +316,6 @@ theorem lowerAugAssign_wf (n : Nsp) (tg : Expr) (op : BinOpK) (v : Expr) (st : S
     cases pure_ok h
     have := transf_wfSlice hp hsl ht
     have hbody := wfE_augAssignExpr op (wfE_name (st.fresh "augass").1) hwv
-      (wfE_namedExpr (st.fresh "augass").1 (wfE_binOp op (wfE_name (st.fresh "augass").1) hwv))
     have h3 : wfE (Expr.subscript (.name (((st.fresh "augass").2.fresh "sllice").2.fresh "augobj").1)
         (.name ((st.fresh "augass").2.fresh "sllice").1)) :=
       wfE_subscript (wfE_name _) (wfE_name _) (by intro es he; cases he)
@@ -332,7 +329,6 @@ theorem lowerAugAssign_wf (n : Nsp) (tg : Expr) (op : BinOpK) (v : Expr) (st : S
     obtain ⟨parent, hp, h⟩ := bind_ok h
     cases pure_ok h
     have hbody := wfE_augAssignExpr op (wfE_name (st.fresh "augass").1) hwv
-      (wfE_namedExpr (st.fresh "augass").1 (wfE_binOp op (wfE_name (st.fresh "augass").1) hwv))
     have h3 := wfE_call (wfE_name "setattr") (wfL_cons (wfE_name ((st.fresh "augass").2.fresh "augobj").1)
       (wfL_cons (wfE_str a) (wfL_cons hbody wfL_nil)))
     exact wfL_cons (wfE_namedExpr _ (transf_wf n [] tv parent hp ht))
